@@ -107,6 +107,8 @@ type Stats struct {
 	Choices       uint64
 	Tasks         int
 	MutexBlock    uint64
+	ChanOps       uint64
+	ChanBlock     uint64
 	CondWait      uint64
 	SimNanos      int64
 	SecondChances uint64
